@@ -126,6 +126,11 @@ def pitch (bits : Nat) (w : Int) : Nat := (pixByteWidth bits w + 3) % W64 / 4 * 
 /-- the law in ℕ: the smallest multiple of four bytes that holds `w * bits` bits -/
 def pitchN (bits w : Nat) : Nat := 4 * ((w * bits + 31) / 32)
 
+/-- the first `n` rows of `p` bytes of a pixel array, in stored order -/
+def storedRows (px : Bytes) (p : Nat) : Nat → List Bytes
+  | 0 => []
+  | n + 1 => px.take p :: storedRows (px.drop p) p n
+
 /-! ## header validation -/
 
 /-- `ImageHeader::Validate` succeeds (header size, planes, bit count, `VerifyDimensions`, colour counts; the colour
